@@ -62,7 +62,14 @@ def replay_case(rec, props: tuple, case: dict, extra=None):
             threaded_stage(rec, props, [case], extra, repeats=6)
             if rec.violations:
                 return None
-    return judge(rec, props, case, want=case.get("want"), extra=extra)
+    res = judge(rec, props, case, want=case.get("want"), extra=extra)
+    if case.get("direct_section") and res[0].ok:
+        from vmon import gen as _gen
+
+        secs = _gen.split_sections(case["text"])
+        for _ in range(len(_FORMS)):
+            direct_sections(rec, props, {"text": case["text"], "truth": case["truth"], "sections": secs}, res[0])
+    return res
 
 
 # ------------------------------------------------------------------------------------------ concurrent re-judging
@@ -146,6 +153,68 @@ def threaded_stage(rec, props: tuple, cases: list[dict], extra=None, nthreads: i
 
 
 # ------------------------------------------------------------------------------------------ whole generated charts
+_FORMS = [("list", list), ("tuple", tuple), ("generator", lambda b: (ln for ln in b)), ("iterator", lambda b: iter(list(b))),
+          ("map object", lambda b: map(str, b))]
+_form_counter = 0
+TRACK_PROPS = ("C02", "C03", "C04", "C05", "C07")
+
+
+def direct_sections(rec, props: tuple, case: dict, out) -> bool:
+    """The documented per-section entry points (Metadata / SyncTrack / GlobalEventsTrack / InstrumentTrack .from_chart_lines, each
+    taking "an iterable of strings") are handed the section's body lines as a list, a tuple, a generator, a one-shot iterator or
+    a map object (rotating): each must decode exactly what the whole-chart parse decoded from the same lines."""
+    global _form_counter
+    import chartparse.globalevents as G
+    import chartparse.instrument as I
+    import chartparse.metadata as M
+    import chartparse.sync as S
+
+    from vmon import harness, model, observe
+
+    chart = out.chart
+    be = chart.sync_track.bpm_events
+    by_header = {model.header(i, d): (i, d) for i, d in model.ALL_PAIRS}
+    ok = True
+    for name, body in case["sections"]:
+        if name == "Song":
+            tag, fn, want = ("C10",), lambda b: observe.observe_metadata(M.Metadata.from_chart_lines(b)), observe.observe_metadata(chart.metadata)
+        elif name == "SyncTrack":
+            tag, fn, want = ("C08",), lambda b: observe.observe_sync(S.SyncTrack.from_chart_lines(be.resolution, b)), observe.observe_sync(chart.sync_track)
+        elif name == "Events":
+            tag, fn, want = ("C09",), lambda b: observe.observe_global(G.GlobalEventsTrack.from_chart_lines(b, be)), observe.observe_global(chart.global_events_track)
+        elif name in by_header:
+            i, d = by_header[name]
+            inst, diff = harness.Instrument[i], harness.Difficulty[d]
+            if inst not in chart.instrument_tracks or diff not in chart.instrument_tracks[inst]:
+                continue
+            tag = TRACK_PROPS
+            fn = lambda b, inst=inst, diff=diff: observe.observe_track(I.InstrumentTrack.from_chart_lines(inst, diff, b, be))  # noqa: E731
+            want = observe.observe_track(chart.instrument_tracks[inst][diff])
+        else:
+            continue
+        if not set(tag) & set(props):
+            continue
+        _form_counter += 1
+        fname, form = _FORMS[_form_counter % len(_FORMS)]
+        rec.ev()
+        rcase = {"text": case["text"], "truth": case["truth"], "direct_section": name, "form": fname}
+        try:
+            got = fn(form(list(body)))
+        except Exception as e:  # noqa
+            rec.violation("direct-section-entry", f"[{name}] body handed to its from_chart_lines as a {fname}: raised {harness.exc_str(e)} although "
+                          "the whole-chart parse decoded the same lines", rcase, f"direct-entry:{fname}:raised")
+            ok = False
+            continue
+        if got != want:
+            keys = [k for k in want if got.get(k) != want[k]] if isinstance(want, dict) else []
+            rec.violation("direct-section-entry", f"[{name}] body ({len(body)} lines) handed to its from_chart_lines as a {fname} decodes differently "
+                          f"from the whole-chart parse of the same lines (differing parts: {keys[:5]})", rcase, f"direct-entry:{fname}:differs")
+            ok = False
+        else:
+            rec.cls(f"direct_section_entry:{fname}")
+    return ok
+
+
 def whole_charts(rec, props: tuple, seed: int, pid: str, shard_name: str, count: int, extra=None, on_ok=None, **kw) -> None:
     """Every property is stated for charts, not for one section in isolation: besides its focused workload each check judges whole
     generated charts (all sections populated: metadata of every field, busy tempo maps, all global-event kinds, several tracks with
@@ -160,9 +229,10 @@ def whole_charts(rec, props: tuple, seed: int, pid: str, shard_name: str, count:
         case = gen.gen_chart(rng, "hostile" if i % 2 else "realistic", **args)
         out, ob, d = judge(rec, props, case, extra=extra)
         if d is not None and not select(d, props, extra):
-            rec.cls("whole_generated_chart")
-            rec.key(["whole", case["text"]])
-            if on_ok is not None:
-                on_ok(case, out)
+            if direct_sections(rec, props, case, out):
+                rec.cls("whole_generated_chart")
+                rec.key(["whole", case["text"]])
+                if on_ok is not None:
+                    on_ok(case, out)
         if rec.full:
             break
